@@ -23,6 +23,19 @@
    not one block earlier, BoundedLoss: not one block later) and a restart of B (ChannelManager and
    ChannelMonitors written and read back) at every height between the on-chain resolution and its burial
    (FailBackAfterBurial holds across the restart); enumerated by TLC and sampled by the random sweep.
+7. Other per-block work of the same channel coinciding with a deadline block: for every deadline the model
+   enumerates (holding-cell give-up block, automatic fail-back at the claim deadline, both go-on-chain
+   blocks, the early upstream fail-back, the fail-back at burial) the channel concerned (or a second channel
+   with the same peer) has another duty on that block, the one before or the one after: a splice reaches its
+   depth (splice_locked out of best_block_updated at depth 6 / out of transactions_confirmed at depth 1), a
+   fresh channel reaches its depth (channel_ready, same two paths), the announcement depth is reached
+   (announcement_signatures).  The engine sets up exactly those offsets (B splices funds out / opens a second
+   channel before the payment, the harness mines that transaction at the height that makes the chosen
+   confirmation land on the chosen block) under all three block-delivery styles (Confirm with
+   best_block_updated first, Confirm with transactions_confirmed first, Listen::block_connected).  The rule
+   stays the property's: whatever else a block triggers, the HTLC is passed on / given back / taken on chain
+   by its deadline (BoundedLoss now also covers an HTLC that B took from A and has not passed on yet).  A
+   spec mutant (the splice exit of the per-block routine forgets the timed-out HTLCs) must be refuted by TLC.
 """
 import json, os, random, shutil, subprocess, time
 from concurrent.futures import ThreadPoolExecutor
@@ -34,6 +47,11 @@ INVS = ("TypeOK NeverShowOrForwardTooSoon ClaimableBelowDeadline OnChainInTimeOu
         "OnChainInTimeInbound WinInboundRace BoundedLoss FailBackAfterBurial")
 H0 = 100
 NEVER = 100000      # confirmation delay of a transaction the miner never takes
+# other per-block work (model kind -> what B sets up, minimum depth of every channel, which confirmation of
+# that transaction is the chosen block)
+COKINDS = {"splice6": ("splice", 6, 6), "splice1": ("splice", 1, 1), "spliceann": ("splice", 1, 6),
+           "open6": ("open", 6, 6), "open1": ("open", 1, 1), "openann": ("open", 1, 6)}
+STYLES = ["best", "txs", "listen"]
 
 
 def read_consts(bin_path):
@@ -77,6 +95,16 @@ def write_cfgs(k, thorough):
           "\nPOSTCONDITION TraceAccepted\nCHECK_DEADLOCK FALSE\n")
     with open(os.path.join(vlib.SPEC, "DeadlinesMC_gen.cfg"), "w") as f:
         f.write(mc)
+    # spec mutant: the splice exit of the per-block routine forgets the HTLCs it timed out of the holding cell
+    # (small window: one delta, one dead-peer offset)
+    mut = (hdr + "SPECIFICATION Spec\nCONSTANTS\n" + consts +
+           "  H0 = %d\n  OffFinal = %s\n  OffFwdA = %s\n  OffFwdB = %s\n  Deltas = %s\n  Slack1 = {1}\n  FarProbe = {0}\n" %
+           (H0, tla_set(off_final[:1]), tla_set(off_a), tla_set(off_b[:1]), tla_set(deltas[:1])) +
+           "  ProbeDeltas = %s\n  ProbeOffD = %s\n  OffSoon = {0}\n  BigHops = {0}\n" % (tla_set(pdeltas[:1]), tla_set(poffd[:1])) +
+           "  CodeExitCarriesTimedOut <- MutExitSpliceDrops\n" +
+           "INVARIANTS " + INVS + "\nCONSTRAINT Horizon\nCHECK_DEADLOCK FALSE\n")
+    with open(os.path.join(vlib.SPEC, "DeadlinesMC_mut_gen.cfg"), "w") as f:
+        f.write(mut)
     with open(os.path.join(vlib.SPEC, "DeadlinesTrace_gen.cfg"), "w") as f:
         f.write(tr)
     return {"OffFinal": off_final, "OffFwdA": off_a, "OffFwdB": off_b, "Deltas": deltas,
@@ -138,12 +166,17 @@ def to_engine(s, k):
 
     def delay(v, dflt):
         return v if 1 <= v <= mbc else dflt
+    co = {}
+    if s.get("cok", "none") != "none":
+        what, cod, con = COKINDS[s["cok"]]
+        co = {"co": what, "cod": cod, "con": con, "cos": s["cos"], "coh": s["coh"], "cok": s["cok"],
+              "codl": s["con"], "coo": s["coo"]}
     if s["role"] == "final":
         on_chain = s["cuconf"] >= 0
         claim = (s["x"] - s["dl"]) if (s["x"] >= 0 and s["dl"] > 0) else None
-        return {"role": "final", "offu": s["offu"], "offd": 0, "d": s["d"], "up": s["up"], "dn": "honest", "x": 0,
-                "claim": claim, "c1": delay(s["c1u"], mbc), "c2": delay(s["c2u"], mbc),
-                "heavy": on_chain or s["up"] == "silent"}
+        return dict({"role": "final", "offu": s["offu"], "offd": 0, "d": s["d"], "up": s["up"], "dn": "honest", "x": 0,
+                     "claim": claim, "c1": delay(s["c1u"], mbc), "c2": delay(s["c2u"], mbc),
+                     "heavy": on_chain or s["up"] == "silent" or bool(co)}, **co)
     ed = H0 + s["offd"]
     c_holds = s["offd"] > k["HFB"] + 1
     mode, x = s["dn"], 0
@@ -151,8 +184,8 @@ def to_engine(s, k):
     if mode == "cell":
         # the forward waited in B's holding cell until C answered at height x (or was refused at once)
         x = (s["x"] - ed) if s["x"] >= 0 else 0
-        return {"role": "fwd", "offu": s["offu"], "offd": s["offd"], "d": s["d"], "up": s["up"], "dn": "cell", "x": x,
-                "claim": None, "c1": 1, "c2": 1, "heavy": False}
+        return dict({"role": "fwd", "offu": s["offu"], "offd": s["offd"], "d": s["d"], "up": s["up"], "dn": "cell", "x": x,
+                     "claim": None, "c1": 1, "c2": 1, "heavy": bool(co)}, **co)
     if mode == "offchain":
         if s["dnres"] == "fulfilled":
             mode, x = ("honest", 0) if s["x"] == H0 else ("lastmoment", s["x"] - ed)
@@ -182,8 +215,8 @@ def to_engine(s, k):
             rsa, rsk = "gone", rsh - s["dnh"]
         else:
             rsa, rsk = "bcast", rsh - s["cdb"]
-    return {"role": "fwd", "offu": s["offu"], "offd": s["offd"], "d": s["d"], "up": s["up"], "dn": mode, "x": x,
-            "claim": None, "c1": c1, "c2": c2, "heavy": heavy, "rsa": rsa, "rsk": rsk}
+    return dict({"role": "fwd", "offu": s["offu"], "offd": s["offd"], "d": s["d"], "up": s["up"], "dn": mode, "x": x,
+                 "claim": None, "c1": c1, "c2": c2, "heavy": heavy or bool(co), "rsa": rsa, "rsk": rsk}, **co)
 
 
 def cex_to_script(path, k):
@@ -200,17 +233,40 @@ def cex_to_script(path, k):
          "d": st["d"], "dl": st["dl"], "x": st["xH"], "dnres": st["dn"], "upres": st["up"],
          "c1d": st["cDc"] - st["cDb"], "c2d": st["dnH"] - mx(st["toB"], st["cDc"]), "cdconf": st["cDc"],
          "c1u": st["cUc"] - st["cUb"], "c2u": st["suC"] - mx(st["suB"], st["cUc"]), "cuconf": st["cUc"],
-         "starve": st.get("starve", False), "rsh": st.get("rsH", -1), "cdb": st["cDb"], "dnh": st["dnH"], "uph": st["upH"]}
+         "starve": st.get("starve", False), "rsh": st.get("rsH", -1), "cdb": st["cDb"], "dnh": st["dnH"], "uph": st["upH"],
+         "cok": st.get("coK", "none"), "coh": st.get("coH", 0) - H0, "cos": st.get("coS", "-"), "con": st.get("coN", "-"),
+         "coo": st.get("coO", 0)}
     if s["role"] == "fwd" and s["dn"] == "offchain" and s["dnres"] == "pending":
         s["dnres"] = "gone"
     return to_engine(s, k), st
 
 
-def pick_scripts(scripts, k, rng, cap_blocks, cap_chain):
+def pick_co(coruns, rng, cap):
+    """Scenarios with other per-block work next to a deadline: one class per (deadline, offset, kind of work,
+    role, peer behaviour, restart / starved miner or not); every class gets a run (the classes of offset 0
+    first), further runs at random; the block-delivery style is drawn per run."""
+    classes = sorted(coruns.keys(), key=lambda c: json.dumps(c))
+    rng.shuffle(classes)
+    classes.sort(key=lambda c: abs(c[1]))          # stable: offset 0 first
+    chosen, rest = [], []
+    for cls in classes:
+        es = coruns[cls]
+        first = rng.choice(es)
+        chosen.append(first)
+        rest += [e for e in rng.sample(es, min(3, len(es))) if e is not first]
+    chosen = chosen[:cap]
+    rng.shuffle(rest)
+    chosen += rest[:max(0, cap - len(chosen))]
+    for e in chosen:
+        e["style"] = rng.choice(STYLES)
+    return chosen, len(classes)
+
+
+def pick_scripts(scripts, k, rng, cap_blocks, cap_chain, cap_co):
     """All scenarios decided at once; of those that need blocks a stratified sample: for the on-chain
     ones the worst case (both confirmation delays = MBC) of every class first, then the other extreme
     delays and random ones; for late off-chain answers the last moments first."""
-    seen, cheap, blocks, heavy = set(), [], [], {}
+    seen, cheap, blocks, heavy, coruns = set(), [], [], {}, {}
     # TLC's workers print in a varying order: sort, so that the sample depends on the seed only
     for s in sorted(scripts, key=lambda x: json.dumps(x, sort_keys=True)):
         e = to_engine(s, k)
@@ -218,7 +274,11 @@ def pick_scripts(scripts, k, rng, cap_blocks, cap_chain):
         if key in seen:
             continue
         seen.add(key)
-        if not e["heavy"]:
+        if e.get("co"):
+            late = "never" if e["c1"] == NEVER else ("late" if e["c1"] > k["MBC"] else "")
+            cls = (e["codl"], e["coo"], e["cok"], e["role"], e["up"], e["dn"], late, bool(e.get("rsa")))
+            coruns.setdefault(cls, []).append(e)
+        elif not e["heavy"]:
             cheap.append(e)
         elif e["heavy"] == "blocks":
             blocks.append(e)
@@ -259,10 +319,77 @@ def pick_scripts(scripts, k, rng, cap_blocks, cap_chain):
         if kk not in have:
             have.add(kk)
             chosen.append(e)
-    return cheap, chosen_blocks, chosen, len(heavy), len(blocks)
+    co_chosen, co_classes = pick_co(coruns, rng, cap_co)
+    return cheap, chosen_blocks, chosen, len(heavy), len(blocks), co_chosen, co_classes
 
 
-def run_engine(binp, wd, conv, tpath, procs=6):
+def co_stats(tpath):
+    """Vacuity guard of the coinciding-work runs: what B sent (splice_locked / channel_ready /
+    announcement_signatures) on the very block on which it acted on a deadline, and on the neighbouring
+    blocks, per block-delivery style -- counted from the recorded runs."""
+    st = {"co_runs": 0, "co_block_before_deadline": 0, "co_block_after_deadline": 0}
+    for what in ("splice_locked", "channel_ready", "announcement_signatures"):
+        for dl in ("cell", "autofail", "godn", "goup", "failback"):
+            if what == "splice_locked" or dl in ("cell", "failback") and what == "channel_ready" \
+                    or dl == "failback" and what == "announcement_signatures":
+                st["co_%s_on_%s_block" % (what, dl)] = 0
+    for sty in STYLES:
+        st["co_on_deadline_block_style_" + sty] = 0
+    st["co_on_deadline_block_depth_1"] = 0
+    st["co_claim_one_block_below_deadline_on_co_block"] = 0
+
+    def close(run):
+        if not run or not run["co"]:
+            return
+        st["co_runs"] += 1
+        for what, hc in run["cos"]:
+            for dl, hd in run["dls"]:
+                if hc == hd:
+                    key = "co_%s_on_%s_block" % (what, dl)
+                    st[key] = st.get(key, 0) + 1
+                    st["co_on_deadline_block_style_" + run["style"]] += 1
+                    if run["cod"] == 1:
+                        st["co_on_deadline_block_depth_1"] += 1
+                elif hc == hd - 1:
+                    st["co_block_before_deadline"] += 1
+                elif hc == hd + 1:
+                    st["co_block_after_deadline"] += 1
+            if run["claim_ok_h"] == hc:
+                st["co_claim_one_block_below_deadline_on_co_block"] += 1
+    cur = None
+    for ln in open(tpath):
+        e = json.loads(ln)
+        ev = e["ev"]
+        if ev == "case":
+            close(cur)
+            cur = {"co": e.get("co", ""), "style": e.get("style", "best"), "cod": e.get("cod", 6), "dn": e["dn"],
+                   "cos": [], "dls": [], "h0": None, "claim_ok_h": None, "dl": None}
+        elif cur is None:
+            continue
+        elif ev == "offer":
+            cur["h0"] = e["h"]
+        elif ev == "show":
+            cur["dl"] = e["deadline"]
+        elif ev == "co":
+            cur["cos"].append((e["what"], e["h"]))
+        elif ev == "claim" and e["ok"] and cur["dl"] is not None and e["h"] == cur["dl"] - 1:
+            cur["claim_ok_h"] = e["h"]
+        elif ev == "resolve" and e["dir"] == "up" and e["kind"] == "fail":
+            if e["reason"] == "CLTVExpiryTooSoon" and cur["dn"] == "cell" and cur["h0"] is not None and e["h"] > cur["h0"]:
+                cur["dls"].append(("cell", e["h"]))
+            elif e["reason"] == "PaymentClaimBuffer":
+                cur["dls"].append(("autofail", e["h"]))
+            elif e["reason"] == "OnChainTimeout":
+                cur["dls"].append(("failback", e["h"]))
+        elif ev == "bcast" and e["node"] == 1 and e["kind"] == "commitment" and e["chan"] in ("dn", "up"):
+            name = "godn" if e["chan"] == "dn" else "goup"
+            if not any(d == name for d, _ in cur["dls"]):
+                cur["dls"].append((name, e["h"]))
+    close(cur)
+    return st
+
+
+def run_engine(binp, wd, conv, tpath, procs=8):
     """The engine is single-threaded: contiguous chunks of the scripts in parallel processes (run numbers
     continue across the chunks), traces concatenated in order."""
     per = (len(conv) + procs - 1) // procs
@@ -498,6 +625,24 @@ def selftest(wd, tpath, cfg):
                     if c["kind"] == "commitment":
                         c["htlc"] = True
         muts.append(("htlc-output-present-fail-back-without-timeout", rs))
+    # (o) B sends splice_locked on the holding-cell give-up block and forgets to give the waiting HTLC back:
+    #     the fail-back is removed, the blocks go on until A's HTLC is within LGP of its expiry
+    def cell_on_co(rs):
+        if not any(r["ev"] == "case" and r.get("co") and r["dn"] == "cell" for r in rs):
+            return None
+        hs = {r["h"] for r in rs if r["ev"] == "co" and r["what"] == "splice_locked"}
+        return next((j for j, r in enumerate(rs) if r["ev"] == "resolve" and r["dir"] == "up" and r["kind"] == "fail"
+                     and r["reason"] == "CLTVExpiryTooSoon" and r["h"] in hs), None)
+    rs = find(lambda rs: cell_on_co(rs) is not None)
+    if rs:
+        i = cell_on_co(rs)
+        eu = next(r for r in rs if r["ev"] == "offer")["eu"]
+        keep = [r for r in rs[:i] if r["ev"] != "end"]
+        hh = rs[i]["h"]
+        while hh < eu - lgp + 1:
+            hh += 1
+            keep.append({"ev": "block", "h": hh, "conf": [], "run": rs[0]["run"]})
+        muts.append(("holding-cell-give-up-missing-on-splice-locked-block", keep))
     rejected = 0
     names = []
     for name, m in muts:
@@ -513,7 +658,8 @@ def selftest(wd, tpath, cfg):
             names.append("%s:ACCEPTED" % name)
     need = ("forward-below-min-delta-low-config", "forward-outgoing-within-grace", "forward-delta-short",
             "early-fail-back-one-block-early", "early-fail-back-one-block-late", "early-fail-back-missing",
-            "fail-back-at-restart-before-burial", "htlc-output-present-fail-back-without-timeout")
+            "fail-back-at-restart-before-burial", "htlc-output-present-fail-back-without-timeout",
+            "holding-cell-give-up-missing-on-splice-locked-block")
     missing = [n for n in need if n not in [m[0] for m in muts]]
     if missing:
         raise vlib.ToolError("binding self-test: no accepted run to build the mutation(s) %s from" % missing)
@@ -558,6 +704,16 @@ def run(tier, seed):
                               "DeadlinesMC")
     if not scripts:
         raise vlib.ToolError("the model produced no scenarios")
+    # ---- 1a. spec mutant: the splice exit of the per-block routine drops the HTLCs it timed out of the holding
+    #      cell -- with other per-block work laid on deadline blocks TLC must find the lost upstream HTLC
+    rm = vlib.tlc_mc(PID, "DeadlinesMC", "DeadlinesMC_mut_gen.cfg", workers=12, timeout=600, coverage=False)
+    vlib.log("[mc-mutant] splice exit drops the timed-out HTLCs: %s after %d states, %.0fs" %
+             (rm["violated"] or "NOT REFUTED", rm["distinct"], rm["wall_s"]))
+    # (the HTLC that was not given back is either passed on too late when the peer answers -- NeverShowOrForwardTooSoon
+    # -- or still unresolved LGP blocks before the incoming expiry -- BoundedLoss)
+    if rm["violated"] not in ("BoundedLoss", "NeverShowOrForwardTooSoon"):
+        raise vlib.ToolError("spec mutant (splice exit drops the timed-out holding-cell HTLCs) not refuted by TLC: %s" %
+                             rm["violated"])
     # ---- 1b. thorough: the same races for unbounded heights (inductive invariant, Apalache)
     ap = None
     if thorough:
@@ -566,10 +722,11 @@ def run(tier, seed):
         vlib.log("[apalache] %d obligations, %d as expected %s" % (len(obl), len(obl) - len(failed), failed or ""))
         if failed and not model_violation:
             raise vlib.ToolError("apalache: obligations not discharged although the bounded model holds: %s" % failed)
-    cheap, late, heavy, nclasses, nlate = pick_scripts(scripts, k, rng, 2500 if thorough else 300,
-                                                       6000 if thorough else 1600)
+    cheap, late, heavy, nclasses, nlate, coruns, nco = pick_scripts(scripts, k, rng, 2500 if thorough else 300,
+                                                                    6000 if thorough else 1600,
+                                                                    6000 if thorough else 1100)
     sweep = sweep_scripts(k, rng, 1500 if thorough else 300) + sweep_deadpeer(k, rng, 400 if thorough else 80)
-    conv = ([cex_script] if cex_script else []) + cheap + late + heavy + sweep
+    conv = ([cex_script] if cex_script else []) + cheap + late + heavy + coruns + sweep
     n_model_runs = len(conv) - len(sweep)
     spath = os.path.join(wd, "scripts.ndjson")
     with open(spath, "w") as f:
@@ -579,8 +736,9 @@ def run(tier, seed):
     # ---- 2. the same offsets on real nodes
     tpath = os.path.join(wd, "trace.ndjson")
     summ = run_engine(bins["deadlines"], wd, conv, tpath)
-    vlib.log("[deadlines] %s (decided at once %d, late off-chain answers %d of %d, on-chain %d runs over %d classes)" %
-             (summ, len(cheap), len(late), nlate, len(heavy), nclasses))
+    vlib.log("[deadlines] %s (decided at once %d, late off-chain answers %d of %d, on-chain %d runs over %d classes, "
+             "other per-block work next to a deadline %d runs over %d classes)" %
+             (summ, len(cheap), len(late), nlate, len(heavy), nclasses, len(coruns), nco))
     if summ["setup_failures"] or summ["skipped"] * 10 > summ["runs"]:
         raise vlib.ToolError("engine could not set up %d / skipped %d of %d scenarios" %
                              (summ["setup_failures"], summ["skipped"], summ["runs"]))
@@ -612,6 +770,7 @@ def run(tier, seed):
             cur["off"] = (e["eu"] - e["h"], (e["ed"] - e["h"]) if e["ed"] else 0)
             cur["hop"] = e["eu"] - e["ed"]
             cur["eu"] = e["eu"]
+            cur["h"] = e["h"]                         # the height at which B decides
             if cur["wait"]:
                 stats["decided_after_waiting_blocks"] += 1
         elif ev == "show":
@@ -684,6 +843,7 @@ def run(tier, seed):
                     stats["c_claim_onchain"] += 1
                 if c["kind"] == "htlc_success" and c["node"] == 1:
                     stats["success_confirmed"] += 1
+    stats.update(co_stats(tpath))
     vlib.log("[deadlines] %s" % stats)
 
     # ---- 3. trace validation (the oracle)
@@ -732,6 +892,9 @@ def run(tier, seed):
                "finished_scenarios": len(scripts)},
         "scenario_classes_needing_chain": nclasses, "runs_decided_at_once": len(cheap), "runs_late_offchain": len(late),
         "late_offchain_scenarios": nlate, "runs_onchain": len(heavy), "runs_random_acceptance_sweep": len(sweep),
+        "runs_other_per_block_work_next_to_deadline": len(coruns), "classes_other_per_block_work": nco,
+        "spec_mutant_splice_exit_drops_timed_out_htlcs": {"refuted_by": rm["violated"], "states": rm["distinct"],
+                                                          "wall_s": round(rm["wall_s"], 1)},
         "events_validated": total, "impl_panics": summ["panics"], "observed": stats,
         "boundary_outcomes": {kk: sorted(v) for kk, v in sorted(table.items())},
         "apalache_unbounded_heights": ap, "binding_selftest": st, "exhaustive": False,
@@ -747,5 +910,8 @@ def run(tier, seed):
         "scenario, upstream peer reconnects at once",
         "non-anchor channels (HTLC transactions broadcast by the monitor itself); one HTLC per scenario, no MPP",
         "no reorganisations (C07/C11 cover them); the upstream peer is responsive in dead-downstream scenarios",
+        "other per-block work next to a deadline: one such duty per scenario, B initiates it (splice-out without wallet "
+        "inputs / a second channel with the same peer) before the payment; dead-peer scenarios get it for one delta, "
+        "no slack and a miner that is either quick or slow; no RBF of the splice, no splice negotiated while the HTLC waits",
     ], time.time() - t0, nviol)
     return nviol
